@@ -161,10 +161,31 @@ func (vt *Model) csi(csi string, params [][]int)
   requires pm: ParamsWF(params)
   ensures C05_inv: Inv(vt)
 
+-- ICH (ECMA-48 8.3.64): n blank characters are inserted at the cursor; the characters from the cursor on move right
+-- and those pushed past the end of the line are lost; the cursor does not move
+pred SpaceCell(c cell) = c.Grapheme == " " && c.Width == 1 && c.Attribute == 0 && c.UnderlineStyle == 0 && c.Foreground == 0 && c.Background == 0 && c.Hyperlink == ""
+pred RowShiftedRight(vt *Model, r int, c0 int, n int) =
+     forall c in 0..Wd(vt): (c < c0 ? vt.activeScreen[r][c] == old(vt.activeScreen[r][c])
+                             : (c < c0 + n ? SpaceCell(vt.activeScreen[r][c]) : vt.activeScreen[r][c] == oldat(vt.activeScreen[r], c - n)))
 func (vt *Model) ich(ps int)
   requires inv: Inv(vt)
   requires ps: ps >= 0
   ensures C05_inv: Inv(vt)
+  ensures C06_ich: RowShiftedRight(vt, old(vt.cursor.row), old(vt.cursor.col), (ps == 0 ? 1 : ps))
+  ensures C06_cursor: vt.cursor.row == old(vt.cursor.row) && vt.cursor.col == old(vt.cursor.col)
+  -- first loop (right to left): the cells right of i have received the cell n to their left, or are still untouched
+  -- when that cell lies left of the cursor; everything up to i is untouched
+  loop 1 invariant C06_shift: vt.cursor == old(vt.cursor) && col == vt.cursor.col && row == vt.cursor.row && ps >= 1 && (old(ps) == 0 ? ps == 1 : ps == old(ps))
+       && col <= i && i < Wd(vt) && backing(line) == old(backing(vt.activeScreen[row])) && offset(line) == old(offset(vt.activeScreen[row])) && len(line) == Wd(vt)
+       && backing(vt.activeScreen[row]) == backing(line) && offset(vt.activeScreen[row]) == offset(line)
+       && (forall c in 0..Wd(vt): (c <= i || c - ps < col) ? line[c] == oldat(vt.activeScreen[row], c) : line[c] == oldat(vt.activeScreen[row], c - ps))
+  -- second loop: the first i of the n cells at the cursor are blank
+  loop 2 invariant C06_blank: vt.cursor == old(vt.cursor) && col == vt.cursor.col && row == vt.cursor.row && ps >= 1 && (old(ps) == 0 ? ps == 1 : ps == old(ps))
+       && 0 <= i && i <= ps && col + i <= Wd(vt) && backing(line) == old(backing(vt.activeScreen[row])) && offset(line) == old(offset(vt.activeScreen[row])) && len(line) == Wd(vt)
+       && backing(vt.activeScreen[row]) == backing(line) && offset(vt.activeScreen[row]) == offset(line)
+       && (forall c in 0..Wd(vt): (c < col ? line[c] == oldat(vt.activeScreen[row], c)
+                                   : (c < col + i ? SpaceCell(line[c])
+                                      : (c - ps < col ? line[c] == oldat(vt.activeScreen[row], c) : line[c] == oldat(vt.activeScreen[row], c - ps)))))
   loop * invariant inv: Inv(vt)
 
 func (vt *Model) cuu(ps int)
